@@ -6,6 +6,8 @@ from ..terms import show, plain, is_const, strip_wrappers, mentions, walk
 from ..e3 import pc_truth
 from ..repo import AnalysisError
 
+from . import shared
+
 LEVEL = "other"
 EXPLANATION = (
     "Decides: (free) the in-use set of the allocator is the set of names of ALL "
@@ -120,6 +122,7 @@ def _subst_term(t, old, new):
 
 def run(ctx):
     model = ctx.model
+    shared.r_lookup(ctx, "R04.lookup", ("nameplates", "nameplate_sides"))
     ctx.rule("R04.src", "the allocator's in-use set is the names of all nameplates rows "
              "of the own app (unfiltered, not the listing-gated accessor)")
     ctx.rule("R04.guard", "every value the finder returns is guarded by `not in` that set")
